@@ -190,6 +190,14 @@ def check(repo, res, tier):
             if stmt_contains(e, lambda x: isinstance(x, ast.Call) and call_name(x) == '_create_random_value_from_runtime'):
                 must = path_must(logic, p, i, depth=0)
                 gate = [l for l in must if 'random()' in l.atom and 'DelayModel.prob' in l.atom]
+                fresh = [l for l in gate if 'default_rng(DelayModel.seed).random()' in l.atom]
+                if gate and not fresh:
+                    res.bad('C15.Y1', g, e.node, 'probability draw %s' % short(gate[0].atom, 70),
+                            'the "does a delay occur" draw does not come from a generator freshly seeded with '
+                            'self.seed for this call (%s): a second call with the same seed and arguments gives '
+                            'a different answer' % short(gate[0].atom, 90))
+                elif fresh:
+                    res.ok('C15.Y1', g, e.node, 'probability draw from default_rng(self.seed), created per call')
                 ok = bool(gate)
                 (res.ok if ok else res.bad)(
                     'C15.Y4', g, e.node, 'sampler called only under random() < prob',
